@@ -60,6 +60,16 @@ pub enum Call {
     SerWordSameLength,
     /// serialisation that fails midway through a shared graph
     SerFailsMidway,
+    /// reader parses (a yield point at every 3-byte read) into Rc / Arc anchored structs over two different
+    /// documents: interleaved on two threads, or one after the other, each must see its own document
+    ReaderRc { second: bool },
+    ReaderArc { second: bool },
+    /// the budget-report callback panics (the panic is caught by the caller, the thread lives on)
+    ReportCallbackPanics,
+    /// a call with a report callback: the result carries how often it was invoked and with how many events
+    ReportCallbackCounts,
+    /// a report callback that itself makes a call with a report callback of its own
+    ReportCallbackNested,
     /// a value with a `!!binary` scalar, to a string
     SerBinary,
     /// the same value to a writer that refuses everything from byte `at` on (`blob: !!binary ` is 15 bytes)
@@ -75,7 +85,14 @@ pub enum Call {
     NestRecursive { k: u8, inner: Box<Call> },
 }
 
-pub const BASIC: [Call; 41] = [
+pub const BASIC: [Call; 48] = [
+    Call::ReaderRc { second: false },
+    Call::ReaderRc { second: true },
+    Call::ReaderArc { second: false },
+    Call::ReaderArc { second: true },
+    Call::ReportCallbackPanics,
+    Call::ReportCallbackCounts,
+    Call::ReportCallbackNested,
     Call::SerBinary,
     Call::SerBinaryWriterFails { at: 0 },
     Call::SerBinaryWriterFails { at: 15 },
@@ -424,6 +441,49 @@ pub fn run_call(c: &Call) -> String {
                 },
             );
             res(guard(|| serde_saphyr::from_reader::<_, Cfg>(rd)), |v| format!("{v:?}"))
+        }
+        Call::ReaderRc { second } => {
+            let text: &[u8] = if *second { b"a: &s beta\nb: *s\nc: &t z2\n" } else { b"a: &s alpha\nb: *s\nc: z\n" };
+            let rd = SimReader::new(text, ReaderScript::fixed(3));
+            res(guard(|| serde_saphyr::from_reader::<_, RcDoc>(rd)), |d| {
+                format!("a={} b={} c={} ab={}", d.a.0, d.b.0, d.c.0, std::rc::Rc::ptr_eq(&d.a.0, &d.b.0))
+            })
+        }
+        Call::ReaderArc { second } => {
+            let text: &[u8] = if *second { b"a: &s beta\nb: *s\n" } else { b"a: &s alpha\nb: *s\n" };
+            let rd = SimReader::new(text, ReaderScript::fixed(3));
+            res(guard(|| serde_saphyr::from_reader::<_, ArcDoc>(rd)), |d| {
+                format!("a={} b={} ab={}", d.a.0, d.b.0, std::sync::Arc::ptr_eq(&d.a.0, &d.b.0))
+            })
+        }
+        Call::ReportCallbackPanics => {
+            let opts = serde_saphyr::Options::default().with_budget_report(|_r| panic!("report callback panics"));
+            match guard(|| serde_saphyr::from_str_with_options::<serde_json::Value>("a: [1, 2]\n", opts)) {
+                Ok(Ok(v)) => v.to_string(),
+                Ok(Err(e)) => err_str(&e),
+                Err(_) => "callback-panic".into(),
+            }
+        }
+        Call::ReportCallbackCounts | Call::ReportCallbackNested => {
+            let nested = matches!(c, Call::ReportCallbackNested);
+            let log: std::rc::Rc<RefCell<Vec<String>>> = std::rc::Rc::new(RefCell::new(Vec::new()));
+            let l2 = log.clone();
+            let opts = serde_saphyr::Options::default().with_budget_report(move |r| {
+                l2.borrow_mut().push(format!("outer:{}", r.events));
+                if nested {
+                    let l3 = l2.clone();
+                    let inner = serde_saphyr::Options::default().with_budget_report(move |r| l3.borrow_mut().push(format!("inner:{}", r.events)));
+                    let v = serde_saphyr::from_str_with_options::<serde_json::Value>("[1, 2, 3]\n", inner);
+                    l2.borrow_mut().push(format!("inner-result:{}", v.is_ok()));
+                }
+            });
+            let r = guard(|| serde_saphyr::from_str_with_options::<serde_json::Value>("a: [1, 2]\nb: c\n", opts));
+            let calls = log.borrow().join(",");
+            match r {
+                Ok(Ok(v)) => format!("{v} reports=[{calls}]"),
+                Ok(Err(e)) => format!("{} reports=[{calls}]", err_str(&e)),
+                Err(a) => format!("{a:?} reports=[{calls}]"),
+            }
         }
         Call::ReaderOk => {
             let rd = SimReader::new(b"a: &s shared\nb: *s\nc: z\n", ReaderScript::fixed(3));
@@ -904,7 +964,12 @@ fn short_call(c: &Call) -> String {
 // Generation
 
 /// calls used as inner calls of nestings and in exhaustive histories
-pub const CORE: [Call; 19] = [
+pub const CORE: [Call; 24] = [
+    Call::ReaderRc { second: false },
+    Call::ReaderRc { second: true },
+    Call::ReaderArc { second: false },
+    Call::ReaderArc { second: true },
+    Call::ReportCallbackPanics,
     Call::OkCfg,
     Call::FailMidAnchor,
     Call::RcShare,
